@@ -374,6 +374,13 @@ fn run(ctx: &RunCtx) -> Report {
     let held_stream = rng.chance(1, 6);
     let n_raw = if held_stream { rng.usize(20, 70) } else { rng.usize(2, 14) };
     let n_real = rng.usize(0, 3);
+    // 1 run in 5 (own random stream, so that the other draws stay as they were): a *public caller* - a
+    // node on a routable address without a configured public_ip. Its peers vote for its address, it pings
+    // itself and re-keys to a BEP42 id at a seeded instant of its first seconds, while a dense train of
+    // bootstrapped() calls (each one a find_node of the id the node has at that instant) is in flight:
+    // a caller waiting for a lookup of the *previous* id must still get its answer.
+    let mut prng = Rng::new(crate::rng::key(ctx.seed, &[crate::rng::tag("c06-public-caller")]));
+    let public_caller = !held_stream && prng.chance(1, 5);
     let mut addrs = vec![];
     // object pool (few targets so that calls collide)
     let keys: Vec<_> = (0..2).map(|_| krpc::signing_key(rng.bytes(32).try_into().unwrap())).collect();
@@ -466,7 +473,7 @@ fn run(ctx: &RunCtx) -> Report {
     }
 
     // caller
-    let mut cspec = NodeSpec::new(priv_ip(1), 6881);
+    let mut cspec = NodeSpec::new(if public_caller { pub_ip(&mut prng) } else { priv_ip(1) }, 6881);
     cspec.server_mode = rng.chance(1, 3);
     cspec.bootstrap = addrs.iter().map(|a| a.to_string()).take(if held_stream { addrs.len() } else { rng.usize(1, 4) }).collect();
     if faulty && rng.chance(1, 3) {
@@ -476,20 +483,31 @@ fn run(ctx: &RunCtx) -> Report {
     // largest request timeout the caller ever reports
     let tau_max: Rc<RefCell<u64>> = Rc::new(RefCell::new(500 * MS));
     let caller_cell: Rc<RefCell<Option<HostId>>> = Default::default();
+    // (time, old id) of every id change of the caller
+    let rekeys: Rc<RefCell<Vec<(u64, [u8; 20])>>> = Default::default();
     {
         let tau = tau_max.clone();
         let cc = caller_cell.clone();
-        sim.set_observer(Box::new(move |h, _now, s| {
+        let rk = rekeys.clone();
+        let mut last_id: Option<[u8; 20]> = None;
+        sim.set_observer(Box::new(move |h, now, s| {
             if Some(h) == *cc.borrow() {
                 let mut t = tau.borrow_mut();
                 *t = (*t).max(s.socket.request_timeout_ns);
+                if let Some(old) = last_id {
+                    if old != s.routing_table.id {
+                        rk.borrow_mut().push((now, old));
+                    }
+                }
+                last_id = Some(s.routing_table.id);
             }
         }));
     }
     let caller = sim.add_node(cspec);
     *caller_cell.borrow_mut() = Some(caller);
     let caller_addr = sim.node_addr(caller);
-    sim.run_for(rng.range(0, 4) * SEC);
+    let pre_run = rng.range(0, 4) * SEC;
+    sim.run_for(if public_caller { 0 } else { pre_run });
 
     // calls
     let t_first = sim.now();
@@ -594,6 +612,29 @@ fn run(ctx: &RunCtx) -> Report {
             ops.borrow_mut().push((i, label.to_string(), target, op));
         });
     }
+    // public caller: the train of bootstrapped() calls around the instant of the re-key
+    let mut train = 0usize;
+    if public_caller {
+        report.probe("public_caller_runs", 1);
+        let m = prng.usize(10, 40);
+        let step = prng.range(15, 80) * MS;
+        let start = t_first + prng.range(0, 600) * MS;
+        for e in 0..m {
+            if !ctx.enabled(n_calls + bad.len() + e) {
+                continue;
+            }
+            let at = start + e as u64 * step;
+            last_issue = last_issue.max(at);
+            let ops = ops.clone();
+            train += 1;
+            sim.at(at, move |sim| {
+                let op = sim.bootstrapped(caller);
+                ops.borrow_mut().push((1000 + e, "bootstrapped".to_string(), [0; 20], op));
+            });
+        }
+        report.elements += m;
+        plan.push(format!("public caller: {m} bootstrapped() calls every {} ms from t={:.3}s", step / MS, start as f64 / SEC as f64));
+    }
     // stalls of the caller
     if faulty && rng.chance(1, 3) {
         let at = t_first + rng.range(0, 3000) * MS;
@@ -644,6 +685,20 @@ fn run(ctx: &RunCtx) -> Report {
     report.probe("calls", ops.borrow().len() as u64);
     if force_overlap {
         report.probe("find_node_then_put_same_target", 1);
+    }
+    if public_caller {
+        let rk = rekeys.borrow();
+        if !rk.is_empty() {
+            report.probe("public_caller_rekeyed", 1);
+            // a lookup of the previous id was active on the caller in the step before the re-key
+            // (bootstrapped() calls issued before it and completed after it)
+            let spanning = ops.borrow().iter().filter(|o| o.1 == "bootstrapped").filter(|o| sim.with_op(o.3, |x| x.issued_at < rk[0].0 && x.done_at.map(|d| d > rk[0].0).unwrap_or(true))).count();
+            if spanning > 0 {
+                report.probe("bootstrapped_calls_spanning_the_rekey", spanning as u64);
+                report.probe("runs_with_a_call_spanning_the_rekey", 1);
+            }
+        }
+        let _ = train;
     }
     if held_stream {
         report.probe("held_stream_runs", 1);
